@@ -1,5 +1,5 @@
 // auto-generated: "lalrpop 0.23.1"
-// sha3: 9bd388bb121068b3efda1a29932621a73e253e0f857b3d4f16b3a7a0b11ee12d
+// sha3: cc03f5d111f9e03a9dd35ebf5d358ba046eadbb38af6dea75363455b39b2e01e
 use crate::rt::*;
 #[allow(unused_extern_crates)]
 extern crate lalrpop_util as __lalrpop_util;
@@ -24,7 +24,8 @@ mod __parse__A {
     pub(crate) enum __Symbol<>
      {
         Variant0(Tok),
-        Variant1(Tree),
+        Variant1(i64),
+        Variant2(Tree),
     }
     const __ACTION: &[i8] = &[
         // State 0
@@ -36,15 +37,15 @@ mod __parse__A {
         // State 3
         0, 0, 3,
         // State 4
-        0, -2, -2,
+        0, -4, -4,
         // State 5
-        0, -3, -3,
+        0, -5, -5,
         // State 6
         0, 9, 3,
         // State 7
-        0, -1, -1,
+        0, -3, -3,
         // State 8
-        0, -4, -4,
+        0, -6, -6,
     ];
     fn __action(state: i8, integer: usize) -> i8 {
         __ACTION[(state as usize) * 3 + integer]
@@ -57,25 +58,25 @@ mod __parse__A {
         // State 2
         0,
         // State 3
-        -5,
+        -7,
         // State 4
-        -2,
+        -4,
         // State 5
-        -3,
+        -5,
         // State 6
         0,
         // State 7
-        -1,
+        -3,
         // State 8
-        -4,
+        -6,
     ];
     fn __goto(state: i8, nt: usize) -> i8 {
         match nt {
-            0 => match state {
+            2 => match state {
                 1 => 6,
                 _ => 3,
             },
-            1 => match state {
+            3 => match state {
                 2 => 7,
                 _ => 4,
             },
@@ -246,33 +247,45 @@ mod __parse__A {
         match __reduce_index {
             0 => {
                 __state_machine::SimulatedReduce::Reduce {
-                    states_to_pop: 3,
+                    states_to_pop: 0,
                     nonterminal_produced: 0,
                 }
             }
             1 => {
                 __state_machine::SimulatedReduce::Reduce {
-                    states_to_pop: 1,
-                    nonterminal_produced: 0,
+                    states_to_pop: 0,
+                    nonterminal_produced: 1,
                 }
             }
             2 => {
                 __state_machine::SimulatedReduce::Reduce {
-                    states_to_pop: 1,
-                    nonterminal_produced: 1,
+                    states_to_pop: 3,
+                    nonterminal_produced: 2,
                 }
             }
             3 => {
                 __state_machine::SimulatedReduce::Reduce {
-                    states_to_pop: 3,
-                    nonterminal_produced: 1,
+                    states_to_pop: 1,
+                    nonterminal_produced: 2,
                 }
             }
-            4 => __state_machine::SimulatedReduce::Accept,
-            5 => {
+            4 => {
                 __state_machine::SimulatedReduce::Reduce {
                     states_to_pop: 1,
                     nonterminal_produced: 3,
+                }
+            }
+            5 => {
+                __state_machine::SimulatedReduce::Reduce {
+                    states_to_pop: 3,
+                    nonterminal_produced: 3,
+                }
+            }
+            6 => __state_machine::SimulatedReduce::Accept,
+            7 => {
+                __state_machine::SimulatedReduce::Reduce {
+                    states_to_pop: 1,
+                    nonterminal_produced: 5,
                 }
             }
             _ => panic!("invalid reduction index {__reduce_index}")
@@ -364,15 +377,21 @@ mod __parse__A {
                 __reduce3(__lookahead_start, __symbols, core::marker::PhantomData::<()>)
             }
             4 => {
+                __reduce4(__lookahead_start, __symbols, core::marker::PhantomData::<()>)
+            }
+            5 => {
+                __reduce5(__lookahead_start, __symbols, core::marker::PhantomData::<()>)
+            }
+            6 => {
                 // __A = A => ActionFn(0);
-                let __sym0 = __pop_Variant1(__symbols);
+                let __sym0 = __pop_Variant2(__symbols);
                 let __start = __sym0.0.clone();
                 let __end = __sym0.2.clone();
                 let __nt = super::__action0::<>(__sym0);
                 return Some(Ok(__nt));
             }
-            5 => {
-                __reduce5(__lookahead_start, __symbols, core::marker::PhantomData::<()>)
+            7 => {
+                __reduce7(__lookahead_start, __symbols, core::marker::PhantomData::<()>)
             }
             _ => panic!("invalid action code {__action}")
         };
@@ -397,10 +416,20 @@ mod __parse__A {
             _ => __symbol_type_mismatch()
         }
     }
-    fn __pop_Variant1<
+    fn __pop_Variant2<
     >(
         __symbols: &mut alloc::vec::Vec<(i64,__Symbol<>,i64)>
     ) -> (i64, Tree, i64)
+     {
+        match __symbols.pop() {
+            Some((__l, __Symbol::Variant2(__v), __r)) => (__l, __v, __r),
+            _ => __symbol_type_mismatch()
+        }
+    }
+    fn __pop_Variant1<
+    >(
+        __symbols: &mut alloc::vec::Vec<(i64,__Symbol<>,i64)>
+    ) -> (i64, i64, i64)
      {
         match __symbols.pop() {
             Some((__l, __Symbol::Variant1(__v), __r)) => (__l, __v, __r),
@@ -414,16 +443,12 @@ mod __parse__A {
         _: core::marker::PhantomData<()>,
     ) -> (usize, usize)
     {
-        // A = A, "+", B => ActionFn(2);
-        assert!(__symbols.len() >= 3);
-        let __sym2 = __pop_Variant1(__symbols);
-        let __sym1 = __pop_Variant0(__symbols);
-        let __sym0 = __pop_Variant1(__symbols);
-        let __start = __sym0.0.clone();
-        let __end = __sym2.2.clone();
-        let __nt = super::__action2::<>(__sym0, __sym1, __sym2);
+        // @L =  => ActionFn(7);
+        let __start = __lookahead_start.cloned().or_else(|| __symbols.last().map(|s| s.2.clone())).unwrap_or_default();
+        let __end = __start.clone();
+        let __nt = super::__action7::<>(&__start, &__end);
         __symbols.push((__start, __Symbol::Variant1(__nt), __end));
-        (3, 0)
+        (0, 0)
     }
     fn __reduce1<
     >(
@@ -432,13 +457,12 @@ mod __parse__A {
         _: core::marker::PhantomData<()>,
     ) -> (usize, usize)
     {
-        // A = B => ActionFn(3);
-        let __sym0 = __pop_Variant1(__symbols);
-        let __start = __sym0.0.clone();
-        let __end = __sym0.2.clone();
-        let __nt = super::__action3::<>(__sym0);
+        // @R =  => ActionFn(6);
+        let __start = __lookahead_start.cloned().or_else(|| __symbols.last().map(|s| s.2.clone())).unwrap_or_default();
+        let __end = __start.clone();
+        let __nt = super::__action6::<>(&__start, &__end);
         __symbols.push((__start, __Symbol::Variant1(__nt), __end));
-        (1, 0)
+        (0, 1)
     }
     fn __reduce2<
     >(
@@ -447,13 +471,16 @@ mod __parse__A {
         _: core::marker::PhantomData<()>,
     ) -> (usize, usize)
     {
-        // B = "x" => ActionFn(4);
-        let __sym0 = __pop_Variant0(__symbols);
+        // A = A, "+", B => ActionFn(12);
+        assert!(__symbols.len() >= 3);
+        let __sym2 = __pop_Variant2(__symbols);
+        let __sym1 = __pop_Variant0(__symbols);
+        let __sym0 = __pop_Variant2(__symbols);
         let __start = __sym0.0.clone();
-        let __end = __sym0.2.clone();
-        let __nt = super::__action4::<>(__sym0);
-        __symbols.push((__start, __Symbol::Variant1(__nt), __end));
-        (1, 1)
+        let __end = __sym2.2.clone();
+        let __nt = super::__action12::<>(__sym0, __sym1, __sym2);
+        __symbols.push((__start, __Symbol::Variant2(__nt), __end));
+        (3, 2)
     }
     fn __reduce3<
     >(
@@ -462,16 +489,28 @@ mod __parse__A {
         _: core::marker::PhantomData<()>,
     ) -> (usize, usize)
     {
-        // B = "y", A, "y" => ActionFn(5);
-        assert!(__symbols.len() >= 3);
-        let __sym2 = __pop_Variant0(__symbols);
-        let __sym1 = __pop_Variant1(__symbols);
+        // A = B => ActionFn(13);
+        let __sym0 = __pop_Variant2(__symbols);
+        let __start = __sym0.0.clone();
+        let __end = __sym0.2.clone();
+        let __nt = super::__action13::<>(__sym0);
+        __symbols.push((__start, __Symbol::Variant2(__nt), __end));
+        (1, 2)
+    }
+    fn __reduce4<
+    >(
+        __lookahead_start: Option<&i64>,
+        __symbols: &mut alloc::vec::Vec<(i64,__Symbol<>,i64)>,
+        _: core::marker::PhantomData<()>,
+    ) -> (usize, usize)
+    {
+        // B = "x" => ActionFn(14);
         let __sym0 = __pop_Variant0(__symbols);
         let __start = __sym0.0.clone();
-        let __end = __sym2.2.clone();
-        let __nt = super::__action5::<>(__sym0, __sym1, __sym2);
-        __symbols.push((__start, __Symbol::Variant1(__nt), __end));
-        (3, 1)
+        let __end = __sym0.2.clone();
+        let __nt = super::__action14::<>(__sym0);
+        __symbols.push((__start, __Symbol::Variant2(__nt), __end));
+        (1, 3)
     }
     fn __reduce5<
     >(
@@ -480,13 +519,31 @@ mod __parse__A {
         _: core::marker::PhantomData<()>,
     ) -> (usize, usize)
     {
+        // B = "y", A, "y" => ActionFn(15);
+        assert!(__symbols.len() >= 3);
+        let __sym2 = __pop_Variant0(__symbols);
+        let __sym1 = __pop_Variant2(__symbols);
+        let __sym0 = __pop_Variant0(__symbols);
+        let __start = __sym0.0.clone();
+        let __end = __sym2.2.clone();
+        let __nt = super::__action15::<>(__sym0, __sym1, __sym2);
+        __symbols.push((__start, __Symbol::Variant2(__nt), __end));
+        (3, 3)
+    }
+    fn __reduce7<
+    >(
+        __lookahead_start: Option<&i64>,
+        __symbols: &mut alloc::vec::Vec<(i64,__Symbol<>,i64)>,
+        _: core::marker::PhantomData<()>,
+    ) -> (usize, usize)
+    {
         // __B = B => ActionFn(1);
-        let __sym0 = __pop_Variant1(__symbols);
+        let __sym0 = __pop_Variant2(__symbols);
         let __start = __sym0.0.clone();
         let __end = __sym0.2.clone();
         let __nt = super::__action1::<>(__sym0);
-        __symbols.push((__start, __Symbol::Variant1(__nt), __end));
-        (1, 3)
+        __symbols.push((__start, __Symbol::Variant2(__nt), __end));
+        (1, 5)
     }
 }
 #[allow(unused_imports)]
@@ -508,7 +565,8 @@ mod __parse__B {
     pub(crate) enum __Symbol<>
      {
         Variant0(Tok),
-        Variant1(Tree),
+        Variant1(i64),
+        Variant2(Tree),
     }
     const __ACTION: &[i8] = &[
         // State 0
@@ -520,15 +578,15 @@ mod __parse__B {
         // State 3
         0, 0, 0,
         // State 4
-        0, -3, -3,
+        0, -5, -5,
         // State 5
         0, 8, 3,
         // State 6
-        0, -2, -2,
-        // State 7
         0, -4, -4,
+        // State 7
+        0, -6, -6,
         // State 8
-        0, -1, -1,
+        0, -3, -3,
     ];
     fn __action(state: i8, integer: usize) -> i8 {
         __ACTION[(state as usize) * 3 + integer]
@@ -541,22 +599,22 @@ mod __parse__B {
         // State 2
         0,
         // State 3
-        -6,
+        -8,
         // State 4
-        -3,
+        -5,
         // State 5
         0,
         // State 6
         0,
         // State 7
-        -4,
+        -6,
         // State 8
         0,
     ];
     fn __goto(state: i8, nt: usize) -> i8 {
         match nt {
-            0 => 5,
-            1 => match state {
+            2 => 5,
+            3 => match state {
                 1 => 6,
                 2 => 8,
                 _ => 3,
@@ -728,35 +786,47 @@ mod __parse__B {
         match __reduce_index {
             0 => {
                 __state_machine::SimulatedReduce::Reduce {
-                    states_to_pop: 3,
+                    states_to_pop: 0,
                     nonterminal_produced: 0,
                 }
             }
             1 => {
                 __state_machine::SimulatedReduce::Reduce {
-                    states_to_pop: 1,
-                    nonterminal_produced: 0,
+                    states_to_pop: 0,
+                    nonterminal_produced: 1,
                 }
             }
             2 => {
                 __state_machine::SimulatedReduce::Reduce {
-                    states_to_pop: 1,
-                    nonterminal_produced: 1,
+                    states_to_pop: 3,
+                    nonterminal_produced: 2,
                 }
             }
             3 => {
-                __state_machine::SimulatedReduce::Reduce {
-                    states_to_pop: 3,
-                    nonterminal_produced: 1,
-                }
-            }
-            4 => {
                 __state_machine::SimulatedReduce::Reduce {
                     states_to_pop: 1,
                     nonterminal_produced: 2,
                 }
             }
-            5 => __state_machine::SimulatedReduce::Accept,
+            4 => {
+                __state_machine::SimulatedReduce::Reduce {
+                    states_to_pop: 1,
+                    nonterminal_produced: 3,
+                }
+            }
+            5 => {
+                __state_machine::SimulatedReduce::Reduce {
+                    states_to_pop: 3,
+                    nonterminal_produced: 3,
+                }
+            }
+            6 => {
+                __state_machine::SimulatedReduce::Reduce {
+                    states_to_pop: 1,
+                    nonterminal_produced: 4,
+                }
+            }
+            7 => __state_machine::SimulatedReduce::Accept,
             _ => panic!("invalid reduction index {__reduce_index}")
         }
     }
@@ -849,8 +919,14 @@ mod __parse__B {
                 __reduce4(__lookahead_start, __symbols, core::marker::PhantomData::<()>)
             }
             5 => {
+                __reduce5(__lookahead_start, __symbols, core::marker::PhantomData::<()>)
+            }
+            6 => {
+                __reduce6(__lookahead_start, __symbols, core::marker::PhantomData::<()>)
+            }
+            7 => {
                 // __B = B => ActionFn(1);
-                let __sym0 = __pop_Variant1(__symbols);
+                let __sym0 = __pop_Variant2(__symbols);
                 let __start = __sym0.0.clone();
                 let __end = __sym0.2.clone();
                 let __nt = super::__action1::<>(__sym0);
@@ -879,10 +955,20 @@ mod __parse__B {
             _ => __symbol_type_mismatch()
         }
     }
-    fn __pop_Variant1<
+    fn __pop_Variant2<
     >(
         __symbols: &mut alloc::vec::Vec<(i64,__Symbol<>,i64)>
     ) -> (i64, Tree, i64)
+     {
+        match __symbols.pop() {
+            Some((__l, __Symbol::Variant2(__v), __r)) => (__l, __v, __r),
+            _ => __symbol_type_mismatch()
+        }
+    }
+    fn __pop_Variant1<
+    >(
+        __symbols: &mut alloc::vec::Vec<(i64,__Symbol<>,i64)>
+    ) -> (i64, i64, i64)
      {
         match __symbols.pop() {
             Some((__l, __Symbol::Variant1(__v), __r)) => (__l, __v, __r),
@@ -896,16 +982,12 @@ mod __parse__B {
         _: core::marker::PhantomData<()>,
     ) -> (usize, usize)
     {
-        // A = A, "+", B => ActionFn(2);
-        assert!(__symbols.len() >= 3);
-        let __sym2 = __pop_Variant1(__symbols);
-        let __sym1 = __pop_Variant0(__symbols);
-        let __sym0 = __pop_Variant1(__symbols);
-        let __start = __sym0.0.clone();
-        let __end = __sym2.2.clone();
-        let __nt = super::__action2::<>(__sym0, __sym1, __sym2);
+        // @L =  => ActionFn(7);
+        let __start = __lookahead_start.cloned().or_else(|| __symbols.last().map(|s| s.2.clone())).unwrap_or_default();
+        let __end = __start.clone();
+        let __nt = super::__action7::<>(&__start, &__end);
         __symbols.push((__start, __Symbol::Variant1(__nt), __end));
-        (3, 0)
+        (0, 0)
     }
     fn __reduce1<
     >(
@@ -914,13 +996,12 @@ mod __parse__B {
         _: core::marker::PhantomData<()>,
     ) -> (usize, usize)
     {
-        // A = B => ActionFn(3);
-        let __sym0 = __pop_Variant1(__symbols);
-        let __start = __sym0.0.clone();
-        let __end = __sym0.2.clone();
-        let __nt = super::__action3::<>(__sym0);
+        // @R =  => ActionFn(6);
+        let __start = __lookahead_start.cloned().or_else(|| __symbols.last().map(|s| s.2.clone())).unwrap_or_default();
+        let __end = __start.clone();
+        let __nt = super::__action6::<>(&__start, &__end);
         __symbols.push((__start, __Symbol::Variant1(__nt), __end));
-        (1, 0)
+        (0, 1)
     }
     fn __reduce2<
     >(
@@ -929,13 +1010,16 @@ mod __parse__B {
         _: core::marker::PhantomData<()>,
     ) -> (usize, usize)
     {
-        // B = "x" => ActionFn(4);
-        let __sym0 = __pop_Variant0(__symbols);
+        // A = A, "+", B => ActionFn(12);
+        assert!(__symbols.len() >= 3);
+        let __sym2 = __pop_Variant2(__symbols);
+        let __sym1 = __pop_Variant0(__symbols);
+        let __sym0 = __pop_Variant2(__symbols);
         let __start = __sym0.0.clone();
-        let __end = __sym0.2.clone();
-        let __nt = super::__action4::<>(__sym0);
-        __symbols.push((__start, __Symbol::Variant1(__nt), __end));
-        (1, 1)
+        let __end = __sym2.2.clone();
+        let __nt = super::__action12::<>(__sym0, __sym1, __sym2);
+        __symbols.push((__start, __Symbol::Variant2(__nt), __end));
+        (3, 2)
     }
     fn __reduce3<
     >(
@@ -944,16 +1028,13 @@ mod __parse__B {
         _: core::marker::PhantomData<()>,
     ) -> (usize, usize)
     {
-        // B = "y", A, "y" => ActionFn(5);
-        assert!(__symbols.len() >= 3);
-        let __sym2 = __pop_Variant0(__symbols);
-        let __sym1 = __pop_Variant1(__symbols);
-        let __sym0 = __pop_Variant0(__symbols);
+        // A = B => ActionFn(13);
+        let __sym0 = __pop_Variant2(__symbols);
         let __start = __sym0.0.clone();
-        let __end = __sym2.2.clone();
-        let __nt = super::__action5::<>(__sym0, __sym1, __sym2);
-        __symbols.push((__start, __Symbol::Variant1(__nt), __end));
-        (3, 1)
+        let __end = __sym0.2.clone();
+        let __nt = super::__action13::<>(__sym0);
+        __symbols.push((__start, __Symbol::Variant2(__nt), __end));
+        (1, 2)
     }
     fn __reduce4<
     >(
@@ -962,13 +1043,46 @@ mod __parse__B {
         _: core::marker::PhantomData<()>,
     ) -> (usize, usize)
     {
+        // B = "x" => ActionFn(14);
+        let __sym0 = __pop_Variant0(__symbols);
+        let __start = __sym0.0.clone();
+        let __end = __sym0.2.clone();
+        let __nt = super::__action14::<>(__sym0);
+        __symbols.push((__start, __Symbol::Variant2(__nt), __end));
+        (1, 3)
+    }
+    fn __reduce5<
+    >(
+        __lookahead_start: Option<&i64>,
+        __symbols: &mut alloc::vec::Vec<(i64,__Symbol<>,i64)>,
+        _: core::marker::PhantomData<()>,
+    ) -> (usize, usize)
+    {
+        // B = "y", A, "y" => ActionFn(15);
+        assert!(__symbols.len() >= 3);
+        let __sym2 = __pop_Variant0(__symbols);
+        let __sym1 = __pop_Variant2(__symbols);
+        let __sym0 = __pop_Variant0(__symbols);
+        let __start = __sym0.0.clone();
+        let __end = __sym2.2.clone();
+        let __nt = super::__action15::<>(__sym0, __sym1, __sym2);
+        __symbols.push((__start, __Symbol::Variant2(__nt), __end));
+        (3, 3)
+    }
+    fn __reduce6<
+    >(
+        __lookahead_start: Option<&i64>,
+        __symbols: &mut alloc::vec::Vec<(i64,__Symbol<>,i64)>,
+        _: core::marker::PhantomData<()>,
+    ) -> (usize, usize)
+    {
         // __A = A => ActionFn(0);
-        let __sym0 = __pop_Variant1(__symbols);
+        let __sym0 = __pop_Variant2(__symbols);
         let __start = __sym0.0.clone();
         let __end = __sym0.2.clone();
         let __nt = super::__action0::<>(__sym0);
-        __symbols.push((__start, __Symbol::Variant1(__nt), __end));
-        (1, 2)
+        __symbols.push((__start, __Symbol::Variant2(__nt), __end));
+        (1, 4)
     }
 }
 #[allow(unused_imports)]
@@ -995,41 +1109,253 @@ fn __action1<
 #[allow(clippy::too_many_arguments, clippy::needless_lifetimes, clippy::just_underscores_and_digits, clippy::extra_unused_type_parameters)]
 fn __action2<
 >(
-    (_, vz0, _): (i64, Tree, i64),
-    (_, vy1, _): (i64, Tok, i64),
-    (_, vx2, _): (i64, Tree, i64),
+    (_, l, _): (i64, i64, i64),
+    (_, c0, _): (i64, Tree, i64),
+    (_, c1, _): (i64, Tok, i64),
+    (_, c2, _): (i64, Tree, i64),
+    (_, r, _): (i64, i64, i64),
 ) -> Tree
 {
-    crate::nodex!("A#0"; vz0, vy1, vx2)
+    node("A#0", l, r, vec![Tree::from(c0), Tree::from(c1), Tree::from(c2)])
 }
 
 #[allow(clippy::too_many_arguments, clippy::needless_lifetimes, clippy::just_underscores_and_digits, clippy::extra_unused_type_parameters)]
 fn __action3<
 >(
-    (_, vz0, _): (i64, Tree, i64),
+    (_, l, _): (i64, i64, i64),
+    (_, c0, _): (i64, Tree, i64),
+    (_, r, _): (i64, i64, i64),
 ) -> Tree
 {
-    crate::nodex!("A#1"; vz0)
+    node("A#1", l, r, vec![Tree::from(c0)])
 }
 
 #[allow(clippy::too_many_arguments, clippy::needless_lifetimes, clippy::just_underscores_and_digits, clippy::extra_unused_type_parameters)]
 fn __action4<
 >(
-    (_, vz0, _): (i64, Tok, i64),
+    (_, l, _): (i64, i64, i64),
+    (_, c0, _): (i64, Tok, i64),
+    (_, r, _): (i64, i64, i64),
 ) -> Tree
 {
-    crate::nodex!("B#0"; vz0)
+    node("B#0", l, r, vec![Tree::from(c0)])
 }
 
 #[allow(clippy::too_many_arguments, clippy::needless_lifetimes, clippy::just_underscores_and_digits, clippy::extra_unused_type_parameters)]
 fn __action5<
 >(
-    (_, __0, _): (i64, Tok, i64),
-    (_, __1, _): (i64, Tree, i64),
-    (_, __2, _): (i64, Tok, i64),
+    (_, l, _): (i64, i64, i64),
+    (_, c0, _): (i64, Tok, i64),
+    (_, c1, _): (i64, Tree, i64),
+    (_, c2, _): (i64, Tok, i64),
+    (_, r, _): (i64, i64, i64),
 ) -> Tree
 {
-    crate::nodex!("B#1"; __0, __1, __2)
+    node("B#1", l, r, vec![Tree::from(c0), Tree::from(c1), Tree::from(c2)])
+}
+
+#[allow(clippy::needless_lifetimes, clippy::clone_on_copy)]
+fn __action6<
+>(
+    __lookbehind: &i64,
+    __lookahead: &i64,
+) -> i64
+{
+    __lookbehind.clone()
+}
+
+#[allow(clippy::needless_lifetimes, clippy::clone_on_copy)]
+fn __action7<
+>(
+    __lookbehind: &i64,
+    __lookahead: &i64,
+) -> i64
+{
+    __lookahead.clone()
+}
+
+#[allow(clippy::too_many_arguments, clippy::needless_lifetimes,
+    clippy::just_underscores_and_digits, clippy::clone_on_copy, clippy::unit_arg)]
+fn __action8<
+>(
+    __0: (i64, Tree, i64),
+    __1: (i64, Tok, i64),
+    __2: (i64, Tree, i64),
+    __3: (i64, i64, i64),
+) -> Tree
+{
+    let __start0 = __0.0.clone();
+    let __end0 = __0.0.clone();
+    let __temp0 = __action7(
+        &__start0,
+        &__end0,
+    );
+    let __temp0 = (__start0, __temp0, __end0);
+    __action2(
+        __temp0,
+        __0,
+        __1,
+        __2,
+        __3,
+    )
+}
+
+#[allow(clippy::too_many_arguments, clippy::needless_lifetimes,
+    clippy::just_underscores_and_digits, clippy::clone_on_copy, clippy::unit_arg)]
+fn __action9<
+>(
+    __0: (i64, Tree, i64),
+    __1: (i64, i64, i64),
+) -> Tree
+{
+    let __start0 = __0.0.clone();
+    let __end0 = __0.0.clone();
+    let __temp0 = __action7(
+        &__start0,
+        &__end0,
+    );
+    let __temp0 = (__start0, __temp0, __end0);
+    __action3(
+        __temp0,
+        __0,
+        __1,
+    )
+}
+
+#[allow(clippy::too_many_arguments, clippy::needless_lifetimes,
+    clippy::just_underscores_and_digits, clippy::clone_on_copy, clippy::unit_arg)]
+fn __action10<
+>(
+    __0: (i64, Tok, i64),
+    __1: (i64, i64, i64),
+) -> Tree
+{
+    let __start0 = __0.0.clone();
+    let __end0 = __0.0.clone();
+    let __temp0 = __action7(
+        &__start0,
+        &__end0,
+    );
+    let __temp0 = (__start0, __temp0, __end0);
+    __action4(
+        __temp0,
+        __0,
+        __1,
+    )
+}
+
+#[allow(clippy::too_many_arguments, clippy::needless_lifetimes,
+    clippy::just_underscores_and_digits, clippy::clone_on_copy, clippy::unit_arg)]
+fn __action11<
+>(
+    __0: (i64, Tok, i64),
+    __1: (i64, Tree, i64),
+    __2: (i64, Tok, i64),
+    __3: (i64, i64, i64),
+) -> Tree
+{
+    let __start0 = __0.0.clone();
+    let __end0 = __0.0.clone();
+    let __temp0 = __action7(
+        &__start0,
+        &__end0,
+    );
+    let __temp0 = (__start0, __temp0, __end0);
+    __action5(
+        __temp0,
+        __0,
+        __1,
+        __2,
+        __3,
+    )
+}
+
+#[allow(clippy::too_many_arguments, clippy::needless_lifetimes,
+    clippy::just_underscores_and_digits, clippy::clone_on_copy, clippy::unit_arg)]
+fn __action12<
+>(
+    __0: (i64, Tree, i64),
+    __1: (i64, Tok, i64),
+    __2: (i64, Tree, i64),
+) -> Tree
+{
+    let __start0 = __2.2.clone();
+    let __end0 = __2.2.clone();
+    let __temp0 = __action6(
+        &__start0,
+        &__end0,
+    );
+    let __temp0 = (__start0, __temp0, __end0);
+    __action8(
+        __0,
+        __1,
+        __2,
+        __temp0,
+    )
+}
+
+#[allow(clippy::too_many_arguments, clippy::needless_lifetimes,
+    clippy::just_underscores_and_digits, clippy::clone_on_copy, clippy::unit_arg)]
+fn __action13<
+>(
+    __0: (i64, Tree, i64),
+) -> Tree
+{
+    let __start0 = __0.2.clone();
+    let __end0 = __0.2.clone();
+    let __temp0 = __action6(
+        &__start0,
+        &__end0,
+    );
+    let __temp0 = (__start0, __temp0, __end0);
+    __action9(
+        __0,
+        __temp0,
+    )
+}
+
+#[allow(clippy::too_many_arguments, clippy::needless_lifetimes,
+    clippy::just_underscores_and_digits, clippy::clone_on_copy, clippy::unit_arg)]
+fn __action14<
+>(
+    __0: (i64, Tok, i64),
+) -> Tree
+{
+    let __start0 = __0.2.clone();
+    let __end0 = __0.2.clone();
+    let __temp0 = __action6(
+        &__start0,
+        &__end0,
+    );
+    let __temp0 = (__start0, __temp0, __end0);
+    __action10(
+        __0,
+        __temp0,
+    )
+}
+
+#[allow(clippy::too_many_arguments, clippy::needless_lifetimes,
+    clippy::just_underscores_and_digits, clippy::clone_on_copy, clippy::unit_arg)]
+fn __action15<
+>(
+    __0: (i64, Tok, i64),
+    __1: (i64, Tree, i64),
+    __2: (i64, Tok, i64),
+) -> Tree
+{
+    let __start0 = __2.2.clone();
+    let __end0 = __2.2.clone();
+    let __temp0 = __action6(
+        &__start0,
+        &__end0,
+    );
+    let __temp0 = (__start0, __temp0, __end0);
+    __action11(
+        __0,
+        __1,
+        __2,
+        __temp0,
+    )
 }
 
 #[allow(clippy::type_complexity, dead_code)]
